@@ -19,7 +19,7 @@ pub fn def() -> PropDef {
             "WithPrec_Round", "WithPrec_TermApplied", "WithPrec_LeadingZeroRemainder", "WithPrec_Pad", "WithPrec_Equal",
             "Wsr_RoundInside", "Wsr_Carry", "Wsr_CarryNewDigit", "Wsr_Extend", "AddRef_Unaligned", "AddRef_Aligned",
         ],
-        rule: "seeded decimals of 1..3000 digits (tie tails, near ties, all-nines) x precision p from 1..digits+5 (every p for inputs of <= 12 digits, otherwise sampled plus digits-1, digits, digits+1) x 7 modes through with_precision_round, with_prec (value and its negation), Context::round_decimal, round_decimal_ref from &BigDecimal / BigDecimalRef / &BigInt, BigDecimalRef::round_with_context, and Context::add_refs / add_refs_into on sums whose exact value needs more than p digits (including cancelling sums and operands far apart in magnitude); each result compared by value with the model's rounding at the p-th digit, exact zero-padded representation when digits <= p. distinct = distinct (input, p, mode) tuples; non-trivial = input has more than p digits (digits are discarded)",
+        rule: "exhaustive small scope: every |n| < 2000 x scales -2..3 x p 1..5 x 7 modes through all entry points; then seeded decimals of 1..3000 digits (tie tails, near ties, all-nines) x precision p from 1..digits+5 (every p for inputs of <= 12 digits, otherwise sampled plus digits-1, digits, digits+1) x 7 modes through with_precision_round, with_prec (value and its negation), Context::round_decimal, round_decimal_ref from &BigDecimal / BigDecimalRef / &BigInt, BigDecimalRef::round_with_context, and Context::add_refs / add_refs_into on sums whose exact value needs more than p digits (including cancelling sums and operands far apart in magnitude); each result compared by value with the model's rounding at the p-th digit, exact zero-padded representation when digits <= p. distinct = distinct (input, p, mode) tuples; non-trivial = input has more than p digits (digits are discarded)",
     }
 }
 
@@ -27,6 +27,7 @@ fn plan(tier: Tier) -> Vec<Unit> {
     match tier {
         Tier::Quick => {
             let mut v = crate::util::split_budget("round", 200_000, 2_000);
+            v.extend(crate::util::split_budget("small", 3_999, 100));
             v.extend(crate::util::split_budget("allp", 6_000, 200));
             v.extend(crate::util::split_budget("ties", 150_000, 2_000));
             v.extend(crate::util::split_budget("sums", 150_000, 2_000));
@@ -34,6 +35,7 @@ fn plan(tier: Tier) -> Vec<Unit> {
         }
         Tier::Thorough => {
             let mut v = crate::util::split_budget("round", 12_000_000, 10_000);
+            v.extend(crate::util::split_budget("small", 3_999, 50));
             v.extend(crate::util::split_budget("allp", 400_000, 2_000));
             v.extend(crate::util::split_budget("ties", 12_000_000, 10_000));
             v.extend(crate::util::split_budget("sums", 8_000_000, 10_000));
@@ -63,6 +65,24 @@ fn run_unit(unit: &Unit, r: &mut Rng, ctx: &mut Ctx) {
                 let mode = *r.pick(&MODES);
                 let case = Case::new("round").push(d.tok()).push(p).push(mode_name(mode));
                 check_case(&case, ctx);
+            }
+        }
+        "small" => {
+            // exhaustive: every |n| < 2000 x scale -2..=3 x p 1..=5 x 7 modes through all eight entry points
+            for idx in unit.start..unit.start + unit.count {
+                let n = idx as i64 - 1999;
+                for s in -2i64..=3 {
+                    let d = Dec::new(BigInt::from(n), s);
+                    for p in 1u64..=5 {
+                        for &mode in MODES.iter() {
+                            let case = Case::new("round").push(d.tok()).push(p).push(mode_name(mode));
+                            check_case(&case, ctx);
+                        }
+                    }
+                }
+            }
+            if unit.start == 0 {
+                ctx.exhaustive_notes.push("C07 small scope: every |n| < 2000 x scales -2..3 x p 1..5 x 7 modes (839 790 cases x 8 entry points)".into());
             }
         }
         "ties" => {
